@@ -636,3 +636,19 @@ func (w *W) genAlignedPartial(jLo, jHi, jStep int, fn inputFn) {
 		}
 	}
 }
+
+// genCarryThenNothing: the index buffer fills exactly at the start of a string / atom / number
+// (that index is stripped and carried into the next round) and no further structural character
+// follows: the token runs to the end of the input, terminated or not.
+func (w *W) genCarryThenNothing(fn inputFn) {
+	for _, k := range []int{1406, 1407, 1408, 2815, 2816, 4223} {
+		for _, tail := range []string{`"` + strings.Repeat("a", 100), `"` + strings.Repeat("a", 100) + `"`, "tru" + strings.Repeat("e", 90), "1" + strings.Repeat("2", 90), `"` + strings.Repeat("a", 30), `"a",` + strings.Repeat(" ", 100),
+			"1" + strings.Repeat("2", 160), "-" + strings.Repeat("0", 70), "nul" + strings.Repeat("l", 200), "\x01" + strings.Repeat("z", 80)} {
+			fn("carry-then-nothing", append(bytes.Repeat([]byte("["), k), tail...))
+			fn("carry-then-nothing", append(append([]byte("["), bytes.Repeat([]byte("0,"), k/2)...), tail...))
+			// the same with the dense part ending at the last byte of a 64-byte block
+			pad := (64 - (1+2*(k/2))%64) % 64
+			fn("carry-then-nothing", append(append(append([]byte("["), bytes.Repeat([]byte(" "), pad)...), bytes.Repeat([]byte("0,"), k/2)...), tail...))
+		}
+	}
+}
